@@ -105,7 +105,10 @@ class PySym:
     def equal(self, a, b):
         if isinstance(a, Vec) or isinstance(b, Vec):
             return isinstance(a, Vec) and isinstance(b, Vec) and len(a) == len(b) and all(self.equal(x, y) for x, y in zip(a, b))
-        return self.reduce(_r(a) - _r(b)).n.is_zero()
+        d = _r(a) - _r(b)
+        if d.n.is_zero():
+            return True         # identical already as rational functions of the opaque symbols
+        return self.reduce(d).n.is_zero()
 
     # ------------------------------------------------------------------ expressions
     def ex(self, n):
